@@ -35,7 +35,8 @@ LEVEL_TEXT = ("Every configuration differing in at most 3 (quick: 1, plus 6 sele
               "taken at the end of that step (integers compared as Python ints, floats after exact widening), "
               "labelled start+t_i and range(rows)/range(cols); the image must keep its unsigned dtype; /scene and "
               "/data must equal the final containers; both layouts and debug on/off must carry identical buckets; "
-              "each debug node must list exactly the buckets the model changed (measured inside the model).")
+              "each debug node must list exactly the buckets the model changed (measured inside the model)."
+              " Every case is also run through the legacy entry point pyxel.exposure_mode (buckets along readout_time); one value of the data axis replaces the processed-data container instead of writing into it.")
 LEVEL_NOTE = ("Bounded: 2x3 detector, <=3 readouts, deviation bound 3, the value palette of the writer probe. Buckets "
               "written only in some steps are excluded (the statement does not define their slices). Variables are "
               "located by name in '/' or '/bucket'. Trusted: numpy/xarray equality, the 60-line comparison code.")
